@@ -664,3 +664,50 @@ func vhBytesEqS(a, b []byte) bool {
 	}
 	return true
 }
+
+// VH_C06_LaterPass: the store-wide pass is not starved by its own "changed since the
+// previous pass" window: garbage created at any instant after a pass is removed by the
+// next pass, for every (disabled) grace period value.
+func VH_C06_LaterPass() {
+	vhReset()
+	conf := vhConf(vhStoreKind("dir"))
+	// the grace period is disabled by ANY negative duration
+	g := vh.Int64("graceNegative")
+	vh.Assume(g < 0 && g > -(1<<42))
+	conf.Storage.GC.GracePeriod = time.Duration(g)
+	st := vhNewStore(conf)
+	pass := func(cur, prev time.Time) {
+		switch s := st.(type) {
+		case *dir:
+			_ = s.gc(cur, prev)
+		case *mem:
+			_ = s.gc(cur, prev)
+		}
+	}
+	r := vhRepo(st, "a")
+	img := []byte(`{"schemaVersion":2,"mediaType":"application/vnd.oci.image.manifest.v1+json","config":{"mediaType":"application/vnd.oci.empty.v1+json","digest":"sha256:44136fa355b3678a1146ad16f7e8649e94fb4fc21fe77e8310c060f61caaff8a","size":2},"layers":[]}`)
+	vhPutBlob(r, []byte("{}"))
+	d := vhPutBlob(r, img)
+	_ = r.IndexInsert(types.Descriptor{MediaType: types.MediaTypeOCI1Manifest, Digest: d, Size: int64(len(img)), Annotations: map[string]string{types.AnnotRefName: "t"}})
+	r.Done()
+	// first pass (as the ticker's first tick: no previous pass)
+	t1 := vclock.Now()
+	pass(t1, time.Time{})
+	// any time later garbage appears in the repository
+	dt := vh.Int64("afterPass")
+	vh.Assume(dt >= 0 && dt < 1<<44)
+	vclock.Advance(time.Duration(dt))
+	r = vhRepo(st, "a")
+	garbage := vhPutBlob(r, []byte("garbage"))
+	r.Done()
+	// the next pass, any time later
+	dt2 := vh.Int64("beforeNextPass")
+	vh.Assume(dt2 >= 0 && dt2 < 1<<44)
+	vclock.Advance(time.Duration(dt2))
+	pass(vclock.Now(), t1)
+	r = vhRepo(st, "a")
+	vh.Assert(!vhBlobExists(r, garbage), "C06.repository-starved-by-pass-window")
+	vh.Assert(vhBlobExists(r, d), "C06.tagged-removed")
+	r.Done()
+	vh.Cover("C06.later-pass-end")
+}
